@@ -1,30 +1,39 @@
 #!/bin/bash
-# Regenerate the protobuf overlay from /repo's .proto files and build harness
-# commands against /repo's current working tree with -tags verif.
+# Regenerate the protobuf overlay from $VERIF_REPO's .proto files and build
+# harness commands against $VERIF_REPO's current working tree with -tags verif.
 # usage: build.sh <cmd-name>...   (names under harness/cmd/)
 set -euo pipefail
 . "$(dirname "$0")/env.sh"
 mkdir -p "$VERIF_BUILD/pb" "$VERIF_BUILD/bin"
 cd "$VERIF_ROOT/harness"
-cp /repo/go.sum go.sum.repo && cat go.sum.repo go.sum.extra 2>/dev/null | sort -u > go.sum && rm -f go.sum.repo
-# 1. generator tools (cached by go build)
-$GO build -o "$VERIF_BUILD/bin/pbgen" ./pbgen
-if [ ! -x "$VERIF_BUILD/bin/protoc-gen-connect-go" ]; then
-  $GO build -o "$VERIF_BUILD/bin/protoc-gen-connect-go" connectrpc.com/connect/cmd/protoc-gen-connect-go
-fi
-# 2. generate into .build/pb and write overlay.json
-rm -rf "$VERIF_BUILD/pb" && mkdir -p "$VERIF_BUILD/pb"
-"$VERIF_BUILD/bin/pbgen" /repo "$VERIF_BUILD/pb" "$VERIF_BUILD/bin/protoc-gen-connect-go" >/dev/null
-python3 - "$VERIF_BUILD" <<'PY'
+# per-build go.mod/go.sum (so concurrent builds against different checkouts do not collide)
+sed "s#=> /repo#=> $VERIF_REPO#" go.mod > "$VERIF_BUILD/go.mod"
+(cat "$VERIF_REPO/go.sum"; cat go.sum.extra 2>/dev/null || true) | sort -u > "$VERIF_BUILD/go.sum"
+MODFILE="-modfile=$VERIF_BUILD/go.mod"
+(
+  flock 9
+  # 1. generator tools (cached by go build)
+  $GO build $MODFILE -o "$VERIF_BUILD/bin/pbgen" ./pbgen
+  if [ ! -x "$VERIF_BUILD/bin/protoc-gen-connect-go" ]; then
+    $GO build $MODFILE -o "$VERIF_BUILD/bin/protoc-gen-connect-go" connectrpc.com/connect/cmd/protoc-gen-connect-go
+  fi
+  # 2. generate into .build/pb and write overlay.json
+  rm -rf "$VERIF_BUILD/pb.new" && mkdir -p "$VERIF_BUILD/pb.new"
+  "$VERIF_BUILD/bin/pbgen" "$VERIF_REPO" "$VERIF_BUILD/pb.new" "$VERIF_BUILD/bin/protoc-gen-connect-go" >/dev/null
+  # keep old files when content is unchanged (preserves go build cache hits)
+  mkdir -p "$VERIF_BUILD/pb"
+  rsync -rc --delete "$VERIF_BUILD/pb.new/" "$VERIF_BUILD/pb/" && rm -rf "$VERIF_BUILD/pb.new"
+  python3 - "$VERIF_BUILD" "$VERIF_REPO" <<'PY'
 import json,os,sys
-b=sys.argv[1]; pb=os.path.join(b,'pb'); rep={}
+b,repo=sys.argv[1],sys.argv[2]; pb=os.path.join(b,'pb'); rep={}
 for d,_,fs in os.walk(pb):
     for f in fs:
         p=os.path.join(d,f); rel=os.path.relpath(p,pb)
-        rep[os.path.join('/repo',rel)]=p
+        rep[os.path.join(repo,rel)]=p
 json.dump({'Replace':rep},open(os.path.join(b,'overlay.json'),'w'),indent=1)
 PY
+) 9>"$VERIF_BUILD/.lock"
 # 3. build requested commands
 for c in "$@"; do
-  $GO build -tags verif -overlay "$VERIF_BUILD/overlay.json" -o "$VERIF_BUILD/bin/$c" "./cmd/$c"
+  $GO build $MODFILE -tags verif -overlay "$VERIF_BUILD/overlay.json" -o "$VERIF_BUILD/bin/$c" "./cmd/$c"
 done
